@@ -11,7 +11,7 @@ use tree_sitter::{ParseOptions, Parser, Point, Range, Tree};
 pub fn meta(tier: &str) -> CheckMeta {
     CheckMeta {
         id: "C09", level: "model_checking",
-        rule: "E-box/E-sched over environment answers, reference = whole-buffer parse by a fresh parser. (i) chunkings: every one of the 2^(n-1) split sets for documents <= 12 (thorough 14) bytes, and for documents <= 4 (thorough 7) bytes every split set crossed with every list of <= 2 included ranges over all byte positions (reference = whole-buffer parse with the same ranges), every single and pair of split points up to 40 (thorough 64) bytes, fixed chunk sizes 1..8 on big documents (splits inside multi-byte characters included; a request at a character start always yields the whole character, which is what the runtime's re-request mechanism requires); (ii) UTF-16LE/BE vs UTF-8 under the code-unit offset map, crossed with unit chunkings (also between surrogates); (iii) BFS depth 3 over prior parser histories {parse other doc, other language, ranges set+cleared, cancelled parse + reset, logger on, logger off}; (iv) cancellation at every progress-callback index (deviation 1) and every pair (deviation 2) followed by resume, and cancel + reset + other document, for fresh parses and for re-parses with an edited old tree. UTF-16 also as raw bytes through the C read callback, windows of 4..9 bytes, against the whole-buffer parse. Non-trivial = run whose environment answers actually deviated (>=1 split inside the text / >=1 cancellation / non-empty history).",
+        rule: "E-box/E-sched over environment answers, reference = whole-buffer parse by a fresh parser. (i) chunkings: every one of the 2^(n-1) split sets for documents <= 12 (thorough 14) bytes, and for documents <= 4 (thorough 7) bytes every split set crossed with every list of <= 2 included ranges over all byte positions (reference = whole-buffer parse with the same ranges), every single and pair of split points up to 40 (thorough 64) bytes, fixed chunk sizes 1..8 on big documents (splits inside multi-byte characters included; a request at a character start always yields the whole character, which is what the runtime's re-request mechanism requires); (ii) UTF-16LE/BE vs UTF-8 under the code-unit offset map, crossed with unit chunkings (also between surrogates); (iii) BFS depth 3 over prior parser histories {parse other doc, other language, ranges set+cleared, cancelled parse + reset, logger on, logger off, parse the empty document, parse in UTF-16}; (iv) cancellation at every progress-callback index (deviation 1) and every pair (deviation 2) followed by resume, and cancel + reset + other document, for fresh parses and for re-parses with an edited old tree. UTF-16 also as raw bytes through the C read callback, windows of 4..9 bytes, against the whole-buffer parse. Non-trivial = run whose environment answers actually deviated (>=1 split inside the text / >=1 cancellation / non-empty history).",
         assumptions: vec!["the progress callback fires once per 100 parser operations; cancellation points are therefore every 100th operation".into()],
         exhaustive: true,
         bounds: json!({"tier": tier, "all_chunkings_up_to_bytes": if tier == "quick" { 12 } else { 14 }, "split_pairs_up_to_bytes": if tier == "quick" { 48 } else { 64 }, "history_depth": 3, "cancel_deviations": 2}),
@@ -366,8 +366,8 @@ fn part_cancellation(ctx: &Ctx, info: &LangInfo, big: &[Vec<u8>], other_doc: &[u
 
 // ---------------------------------------------------------------- (iii) parser history
 #[derive(Clone, Copy, Debug, PartialEq)]
-enum HOp { ParseOther, OtherLanguage, RangesSetCleared, CancelReset, LoggerOn, LoggerOff }
-const HOPS: [HOp; 6] = [HOp::ParseOther, HOp::OtherLanguage, HOp::RangesSetCleared, HOp::CancelReset, HOp::LoggerOn, HOp::LoggerOff];
+enum HOp { ParseOther, OtherLanguage, RangesSetCleared, CancelReset, LoggerOn, LoggerOff, ParseEmpty, ParseUtf16 }
+const HOPS: [HOp; 8] = [HOp::ParseOther, HOp::OtherLanguage, HOp::RangesSetCleared, HOp::CancelReset, HOp::LoggerOn, HOp::LoggerOff, HOp::ParseEmpty, HOp::ParseUtf16];
 
 fn apply_hop(p: &mut Parser, op: HOp, info: &LangInfo, other: &LangInfo, other_doc: &[u8], big: &[u8]) {
     match op {
@@ -387,6 +387,9 @@ fn apply_hop(p: &mut Parser, op: HOp, info: &LangInfo, other: &LangInfo, other_d
             let _ = p.parse_with_options(&mut |i, _| if i < len { &big[i..] } else { &big[len..] }, None, Some(opts));
             p.reset();
         }
+        // (an empty document leaves the lexer at end of input at byte 0; a UTF-16 parse leaves another encoding behind)
+        HOp::ParseEmpty => { let _ = p.parse(b"", None); }
+        HOp::ParseUtf16 => { let units: Vec<u16> = String::from_utf8_lossy(other_doc).encode_utf16().collect(); let _ = p.parse_utf16_le(&units, None); }
         HOp::LoggerOn => { p.set_logger(Some(Box::new(|_, _| {}))); }
         HOp::LoggerOff => { p.set_logger(None); }
     }
@@ -529,7 +532,7 @@ utf8:    {}", enc, t.root_node().to_sexp(), refx.sexp(&info.language));
         }
         "history" => {
             // "[RangesSetCleared, LoggerOn, CancelReset]"
-            let hs: Vec<HOp> = x["history"].as_str().unwrap_or("").trim_matches(|c| c == '[' || c == ']').split(',').filter_map(|t| match t.trim() { "ParseOther" => Some(HOp::ParseOther), "OtherLanguage" => Some(HOp::OtherLanguage), "RangesSetCleared" => Some(HOp::RangesSetCleared), "CancelReset" => Some(HOp::CancelReset), "LoggerOn" => Some(HOp::LoggerOn), "LoggerOff" => Some(HOp::LoggerOff), _ => None }).collect();
+            let hs: Vec<HOp> = x["history"].as_str().unwrap_or("").trim_matches(|c| c == '[' || c == ']').split(',').filter_map(|t| match t.trim() { "ParseOther" => Some(HOp::ParseOther), "OtherLanguage" => Some(HOp::OtherLanguage), "RangesSetCleared" => Some(HOp::RangesSetCleared), "CancelReset" => Some(HOp::CancelReset), "LoggerOn" => Some(HOp::LoggerOn), "LoggerOff" => Some(HOp::LoggerOff), "ParseEmpty" => Some(HOp::ParseEmpty), "ParseUtf16" => Some(HOp::ParseUtf16), _ => None }).collect();
             let arith = build_info(&crate::zoo::arith());
             let other_doc = z.seeds.iter().filter(|s| s.len() > 3).next().map(|s| s.as_bytes().to_vec()).unwrap_or_default();
             let big = big_docs(z.name);
